@@ -10,6 +10,7 @@ import traceback
 
 from . import facts as F
 from .mir import Program
+from . import mir as M
 
 ENTRY_ROOTS = [
     "Request::parse", "Request::parse_with_uninit_headers", "ParserConfig::parse_request",
@@ -43,7 +44,7 @@ def scanner_jobs(prog, config="B0", profile="debug"):
     from . import prims as PR
     jobs = []
     for i in prog.insts:
-        if i["local"] and i["body"] and i["npath"].startswith("simd::") and i["npath"].split("::")[-1] in PR.SCANNER_CLASSES:
+        if i["local"] and i["body"] and M.is_scanner_path(i["npath"], PR.SCANNER_CLASSES):
             jobs.append({"kind": "scanner", "config": config, "profile": profile, "root": i["npath"]})
     return jobs
 
@@ -78,7 +79,7 @@ def load_prog(config, profile, th):
 def scanner_names(prog):
     from . import prims as PR
     return [i["npath"] for i in prog.insts
-            if i["local"] and i["body"] and i["npath"].startswith("simd::") and i["npath"].split("::")[-1] in PR.SCANNER_CLASSES]
+            if i["local"] and i["body"] and M.is_scanner_path(i["npath"], PR.SCANNER_CLASSES)]
 
 
 def dead_job(job, why):
